@@ -191,7 +191,10 @@ def run_case(case):
                     spec = specs[oi]
                     ev["ret"] = []
                     r = spec.get_value(ev["n"])
-                    if isinstance(r, (list, tuple)):
+                    if o.get("dense"):
+                        ev["ret"] = [[enc(p[0], 2 * o.get("tS", 1)), enc(p[1], S)] for p in r]
+                        ev["scalar"] = False
+                    elif isinstance(r, (list, tuple)):
                         ev["ret"] = [enc(x, S) for x in r]
                         ev["scalar"] = False
                     else:
